@@ -82,6 +82,14 @@ func VerifRouteNamespaceTwin() {
 	VerifRouteFromCache()
 }
 
+// VerifRouteNamespaceSuffix: VerifRouteFromCache over the tables "n:t" and "n:xt": one namespace,
+// one qualifier a proper suffix of the other (a key of "n:xt" below every cached region of it
+// finds the last region of "n:t" as its predecessor in the cache).
+func VerifRouteNamespaceSuffix() {
+	vTableSel = []int{2, 4}
+	VerifRouteFromCache()
+}
+
 // VerifRouteConcurrent: two callers look up rows of one table at the same time (the cache is
 // read under a read lock, which both hold at once): each gets the region that contains its own
 // row, and the lookups do not race on shared state.
